@@ -758,7 +758,14 @@ func Lexical(j *job.Job, s *job.Sink) {
 			}
 			t = "module m { namespace \"u\"; prefix m; " + strings.Repeat("container c {", sz/26) + strings.Repeat("}", sz/26) + "}"
 		case 3:
-			t = "a " + strings.Repeat("\"x\"+", size/4) + "\"y\";"
+			// (the parser joins the pieces one by one: work and garbage are the square of their
+			// number. 65 536 pieces say what 262 144 say; the latter ran a worker into its 8 GB
+			// address-space limit when the machine was busy and the collector fell behind.)
+			sz := size
+			if sz > 256<<10 {
+				sz = 256 << 10
+			}
+			t = "a " + strings.Repeat("\"x\"+", sz/4) + "\"y\";"
 		case 4:
 			t = "a \"" + strings.Repeat("\\q", size/2) + "\";"
 		case 5:
